@@ -80,7 +80,8 @@ func generatedPrograms() []string {
 	for _, np := range d5Extras() {
 		out = append(out, np.P.Source("find all"))
 	}
-	out = append(out, "find all", "replace all 'a' with", "find all 'a' find all", "set p to pattern\nfind all p")
+	out = append(out, "find all {} = s s 'a'", "find all () 'a' ()", "find all {()} = e 'a' e",
+		"find all", "replace all 'a' with", "find all 'a' find all", "set p to pattern\nfind all p")
 	out = append(out,
 		c05Transforms+"replace all (any = x) maybe (any = y) with t1 '-' t2 x t3 nope t4",
 		"find top 3 between 1 and 2 in 'a' to 'c', digit, \"x\", caseless 'q' fewest named n",
